@@ -90,8 +90,17 @@ def execute(mod, choices=None, seed=None, by_label=None):
         except Exception as e:      # noqa: BLE001
             # An exception that comes out of pokerkit itself while the scheduler or a monitor reads a public query or
             # property (can_*, *_index, pots, ...) is the engine's failure, not the harness's: a query must never raise.
-            tb = traceback.extract_tb(e.__traceback__)
-            if not tb or '/pokerkit/' not in tb[-1].filename or '/verif/' in tb[-1].filename:
+            chain, x = [], e
+            while x is not None and x not in chain:        # e.g. RuntimeError('generator raised StopIteration') <- StopIteration
+                chain.append(x)
+                x = x.__cause__ or x.__context__
+            tb = None
+            for x in chain:
+                t = traceback.extract_tb(x.__traceback__)
+                if t and '/pokerkit/' in t[-1].filename and '/verif/' not in t[-1].filename:
+                    tb, e = t, x
+                    break
+            if tb is None:
                 raise
             caller = next((fr.name for fr in reversed(tb) if '/pokerkit/' not in fr.filename), '?')
             info = {'kind': 'crash', 'monitor': 'engine_crash',
